@@ -4,7 +4,7 @@
 from collections import defaultdict
 
 from jaqalpaq.core.algorithm.visitor import Visitor
-from jaqalpaq.core import Macro
+from jaqalpaq.core import Macro, Parameter, NamedQubit
 from jaqalpaq.error import JaqalError
 
 
@@ -65,7 +65,14 @@ class UsedQubitIndicesVisitor(Visitor):
         # Note: This could be more elegant with a is_macro method on gates
         if isinstance(obj.gate_def, Macro):
             context = context or {}
-            macro_context = {**context, **obj.parameters}
+            # Arguments are resolved in the caller's context: they may
+            # mention the caller's own parameters, whose names can
+            # coincide with those of the called macro.
+            arguments = {
+                name: self.resolve_argument(value, context)
+                for name, value in obj.parameters.items()
+            }
+            macro_context = {**context, **arguments}
             macro_body = obj.gate_def.body
             return self.visit(macro_body, macro_context)
         else:
@@ -75,6 +82,22 @@ class UsedQubitIndicesVisitor(Visitor):
                 else:
                     self.merge_into(indices, self.visit(param, context=context))
             return indices
+
+    def resolve_argument(self, value, context):
+        """Replace any macro parameters in an argument by what they stand
+        for in the given context."""
+        try:
+            if isinstance(value, Parameter):
+                return value.resolve_value(context)
+            if isinstance(value, NamedQubit) and (
+                isinstance(value.alias_from, Parameter)
+                or isinstance(value.alias_index, Parameter)
+            ):
+                reg, idx = value.resolve_qubit(context)
+                return reg[idx]
+        except JaqalError:
+            pass
+        return value
 
     def visit_Parameter(self, obj, context=None):
         return self.visit(obj.resolve_value(context=context), context=context)
